@@ -187,10 +187,16 @@ def _driver(task):
         locs = set()
         blocked = 0
         for r in results:
+            if r["blocked"]:
+                # B could not run to completion at this point (it waits for a lock A holds): the schedule
+                # "B to completion, then A" does not exist; after the hand-back both threads ran freely, so the
+                # outcome is not a function of the schedule and is not judged
+                blocked += 1
+                locs.add((r["loc"][0], r["loc"][1]))
+                continue
             pair = (r["ra"], r["rb"])
             outcomes[json.dumps(pair)] = outcomes.get(json.dumps(pair), 0) + 1
             locs.add((r["loc"][0], r["loc"][1]))
-            blocked += 1 if r["blocked"] else 0
             if pair not in allowed:
                 bad.append(r)
         return {"pair": pname, "A": a_name, "B": b_name, "init": init, "mode": mode, "line_events": n, "schedules": len(results),
